@@ -74,7 +74,8 @@ PROPS["C13"] = dict(
 )
 PROPS["C14"] = dict(
     level="proof", rule="string literals: every string over the escape alphabet (quotes, backslash, braces, '$', newline, tab, control, non-ASCII) up to length 3 exhaustively in the thorough tier, random beyond, in each quoting style, evaluated directly and embedded in :text / dynamic attributes with either delimiter; non-trivial = the string contains at least one rune that needs escaping or is non-ASCII; distinct = distinct case lines",
-    streams=[dict(name="strlit", family="strlit", quick=4000, thorough=150000, nontrivial=r".")],
+    streams=[dict(name="strlit", family="strlit", quick=9000, thorough=150000, nontrivial=r"."),
+             dict(name="strtmpl", family="strtmpl", quick=9000, thorough=150000, nontrivial=r".")],
     trusted_base=TB_EXP, modelled=MOD_EXP + ["strconv.Unquote"], assumptions=["valid UTF-8, NUL-free"],
     level_text="Theorems: for every string s, lexing quote_dq s / quote_sq s / quote_raw s yields one string token and unquote returns s (raw: s without backquote and CR); tied to the code by evaluating the three literal forms of generated strings directly and inside ${} blocks in attributes with either delimiter.",
     level_note="Byte escapes >= 0x80 (\\xff) produce invalid UTF-8 and are UNMODELLED.",
@@ -89,7 +90,7 @@ SOUP_RULE = ("template sets from harness/gen_tmpl.go: 1-3 files in random load o
              "non-trivial = the template loaded and at least one directive was processed (every generated set contains directives); distinct = distinct case lines")
 def render_prop(level_text, level_note, extra_streams=(), quick=2500, thorough=150000):
     return dict(level="proof", allowed_axioms=FLOCQ_AXIOMS, rule=SOUP_RULE,
-                streams=[dict(name="tmpl", family="tmpl", quick=quick, thorough=thorough, nontrivial=r"^(OK|ERR)")] + list(extra_streams),
+                streams=[dict(name="tmpl", family="tmpl", quick=quick, thorough=thorough, nontrivial=r"^(OK|ERR)", shard=250)] + list(extra_streams),
                 trusted_base=TB_RENDER, modelled=MOD_RENDER, assumptions=["valid UTF-8 templates", "acyclic fragment inclusion (cyclic inclusion: see C08)"],
                 level_text=level_text, level_note=level_note)
 
@@ -125,7 +126,7 @@ PROPS["C16"] = render_prop(
 
 PROPS["C15"] = dict(level="proof", allowed_axioms=FLOCQ_AXIOMS,
     rule=SOUP_RULE + "; every case also snapshots the whole shared parsed tree (verif hook html.VerifSnapshot: Tag caches, attribute order, pointers) before and after all executions; plus runs under the Go race detector: 2..64 goroutines executing the same/different templates of one manager, racing first executions, with and without a reused template object per goroutine, results compared with serial execution",
-    streams=[dict(name="tmpl", family="tmpl", quick=2000, thorough=100000, nontrivial=r"^(OK|ERR)")],
+    streams=[dict(name="tmpl", family="tmpl", quick=2000, thorough=100000, nontrivial=r"^(OK|ERR)", shard=250)],
     race=dict(quick=25, thorough=600),
     trusted_base=TB_RENDER + ["the Go race detector (go build -race) and the Go scheduler: data-race freedom of the real runtime rests on these runs"],
     modelled=MOD_RENDER + ["html/tag.go Tag.AttrMap / Tag.SortedAttr caches (Sys/Conc.v)"],
@@ -167,7 +168,7 @@ PROPS["C08"] = dict(level="proof", allowed_axioms=FLOCQ_AXIOMS,
              dict(name="scan", family="scan", quick=1500, thorough=50000, nontrivial=r"."),
              dict(name="parse", family="parse", quick=1500, thorough=50000, nontrivial=r"."),
              dict(name="eval", family="eval", quick=1500, thorough=50000, nontrivial=r"."),
-             dict(name="tmpl", family="tmpl", quick=800, thorough=30000, nontrivial=r".")],
+             dict(name="tmpl", family="tmpl", quick=800, thorough=30000, nontrivial=r".", shard=250)],
     trusted_base=TB_RENDER + ["recover() in the harness; a fatal runtime error (stack exhaustion) is seen as a dead child process"],
     modelled=MOD_RENDER, assumptions=["inputs up to a few KB: nesting deep enough to exhaust the 1 GB goroutine stack is out of scope", "no channels in data"],
     level_text="PARTIAL. Theorems: every partial operation of the Go code (integer division, shifts, indexing, slicing, nil dereference, calls into panicking / mis-typed user functions, non-boolean conditions, end of input inside a tag, stray close tags) is a guarded total operation of the model whose failure is an error value, and the models are total functions; that the implementation itself never panics is established by the correspondence streams (a PANIC outcome never matches the model) and by fuzzing every entry point with random bytes and hostile data.",
